@@ -15,7 +15,11 @@ def select(name):
 
 
 def tasks():
-    return [ClusterTask("mailbox-cluster", "props.mailbox", "engine", select, "mailbox_history:search")]
+    # that a second PAKE message (a third participant, a replay) never reaches Order.S1_yes_pake rests on the Mailbox's
+    # per-phase dedup: its function-level contract (C02's module) is part of this property's argument and is run here too
+    from .common import shared_tasks
+    return [ClusterTask("mailbox-cluster", "props.mailbox", "engine", select, "mailbox_history:search")] + \
+        shared_tasks("c14", "c02", ("Mailbox.N_release_and_accept", "Mailbox.rx_message"))
 
 
 TRUSTED = ["z3", "pyvc semantics of the Python subset", "Automat dispatch semantics as encoded in pyvc/automat.py "
